@@ -498,7 +498,7 @@ func checkC10(c *Ctx) {
 	c.Floor("crash_points", 30)
 	c.Floor("write_failure_offsets", 50)
 	c.Floor("errno_injections", 20)
-	c.Floor("hook_observations", 30)
+	// (no floor on hook_observations: instruments 1-3 do not depend on the hook lines being present)
 	c.Floor("inotify_events", 100)
 	c.Floor("reader_observations", 100)
 }
